@@ -17,8 +17,8 @@ with `ast` and writes `<gen_dir>/SrcC01.lean` (module `Gen.SrcC01`):
     An "element kind" is the tag of the element that carries the item; for the tags in AMBIG (whose content depends on where
     they stand) it is `parentTag/tag`.  Tags computed at run time are wild cards: `<Tag>` (a member of scenario.Tag),
     `<xmlName>` (`_map_to_xml_prop(attr)`), `<camel>` (the bare regex of the goal-state writer).
-    Both tables come out of a small inter-procedural abstract interpretation (writer: which `etree.Element(...)` creation
-    sites reach which `append` / `extend` / `set` / `.text =`; reader: which element kinds reach which `find` / `findall` /
+    Both tables come out of a small inter-procedural abstract interpretation (writer: which `etree.Element(...)` /
+    `etree.SubElement(parent, ...)` creation sites reach which `append` / `extend` / `set` / `.text =`; reader: which element kinds reach which `find` / `findall` /
     `get`), so renaming locals, extracting helpers, re-ordering independent statements, if/else <-> conditional expression
     do not change the tables.
 
@@ -204,6 +204,20 @@ class WriterAnalysis:
                 self.sites[sid] = self.tag_expr(n.args[0])
                 st["born"].setdefault(sid, st["path"])
                 return {sid}
+            if dotted(n.func) == "etree.SubElement":
+                # `etree.SubElement(parent, tag)` = `child = etree.Element(tag); parent.append(child)` (lxml: created and appended
+                # as the LAST child of `parent`), the value of the call is the child
+                if len(n.args) != 2 or n.keywords:
+                    raise Unsupported("etree.SubElement with attributes")
+                parents = self.ev(n.args[0], st)
+                sid = f"{st['qn']}@{n.lineno - st['line0']}:{n.col_offset}"
+                self.sites[sid] = self.tag_expr(n.args[1])
+                st["born"].setdefault(sid, st["path"])
+                if not parents and self.final:
+                    raise Unsupported(f"parent of {ast.unparse(n)}")
+                for t in parents:
+                    st["rec"].append(("edge", t, sid, "", st["path"], ""))
+                return {sid}
             callee = self.resolve(n.func, st["cls"])
             if callee is None:
                 for a in list(n.args) + [k.value for k in n.keywords]:
@@ -263,6 +277,7 @@ class WriterAnalysis:
     def stmt(self, s, st, mult, rec):
         env, senv = st["env"], st["senv"]
         mult = st["path"]
+        st["rec"] = rec        # where an expression with an effect on the tree (`etree.SubElement`) records it
         if isinstance(s, ast.Expr) and isinstance(s.value, ast.Constant):
             return
         if isinstance(s, (ast.Assign, ast.AnnAssign)):
